@@ -3,7 +3,7 @@ C35 — Meaning-preserving source rewrites (partial): theorems for the modelled 
 (`RsassModel/Rewrite/Model.lean`).  The statement over whole programs is tied impl-vs-impl
 by `props/C35.py` (original vs. rewritten source through the real compiler).
 -/
-import RsassModel.Rewrite.Model
+import RsassModel.Rewrite.Lemmas
 namespace C35
 open Rewrite
 
@@ -184,5 +184,79 @@ theorem debug_warn_noop (p : List Stmt) (s r : State) (h : exec s p = some r) : 
 theorem debug_literal_insert (s : State) (n : Int) (rest : List Stmt) :
     exec s (.debug (.num n) :: rest) = exec s rest ∧ exec s (.warn (.num n) :: rest) = exec s rest := by
   simp [exec, eval]
+
+/-! ### consistent renaming -/
+
+/-- **Renaming variables consistently does not change a value**: for an injective renaming `ρ`
+(a bijection onto fresh names is one), the renamed expression in the renamed environment
+evaluates exactly as before — errors included. -/
+theorem rename_invariant_expr (ρ : Text → Text) (hρ : ∀ a b, ρ a = ρ b → a = b) (env : Env) (e : Expr) :
+    eval (renEnv ρ env) (e.rename ρ) = eval env e :=
+  eval_rename ρ hρ env e
+
+/-- **`rename_invariant`**: the renamed program, started in the renamed state, runs to the renamed
+state of the original run; in particular it fails iff the original fails and its output is the
+same list of values. -/
+theorem rename_invariant (ρ : Text → Text) (hρ : ∀ a b, ρ a = ρ b → a = b) (p : List Stmt) (s : State) :
+    (exec (s.rename ρ) (p.map (Stmt.rename ρ))).map (·.out) = (exec s p).map (·.out) := by
+  rw [exec_rename ρ hρ]
+  cases exec s p <;> rfl
+
+/-- started from nothing (a whole program) -/
+theorem rename_invariant_program (ρ : Text → Text) (hρ : ∀ a b, ρ a = ρ b → a = b) (p : List Stmt) :
+    (exec ⟨[], []⟩ (p.map (Stmt.rename ρ))).map (·.out) = (exec ⟨[], []⟩ p).map (·.out) :=
+  rename_invariant ρ hρ p ⟨[], []⟩
+
+/-- swapping `-` and `_` is such a renaming *after* normalisation: names are compared by `nameKey`,
+and `nameKey ∘ swapDash = nameKey` (`name_norm_dash_underscore`), so the renamed program is the
+same program; the hypothesis of `rename_invariant` is needed for genuinely different names only. -/
+example : ∃ ρ : Text → Text, (∀ a b, ρ a = ρ b → a = b) ∧ ρ "x".toList ≠ "x".toList :=
+  ⟨fun t => 'r' :: t, fun a b h => by simpa using h, by decide⟩
+
+/-- injectivity is needed: merging two names changes the output -/
+theorem rename_needs_injective :
+    let p : List Stmt := [.assign "a".toList (.num 1), .assign "b".toList (.num 2), .emit (.var "a".toList)]
+    (exec ⟨[], []⟩ (p.map (Stmt.rename fun _ => "c".toList))).map (·.out) ≠ (exec ⟨[], []⟩ p).map (·.out) := by
+  decide
+
+/-! ### moving a fragment into a partial loaded with @import -/
+
+/-- **`import_inlines`**: a program whose top level contains `@import`s of partials runs exactly like
+the program with every partial written out in place (same final environment, same output, same
+failures) — for the specified semantics of `@import` (the imported items run in the importing scope). -/
+theorem import_inlines (p : List TStmt) (s : State) : execT s p = exec s (inlineImports p) := by
+  induction p generalizing s with
+  | nil => rfl
+  | cons t rest ih =>
+    cases t with
+    | plain st =>
+      have : inlineImports (TStmt.plain st :: rest) = [st] ++ inlineImports rest := rfl
+      rw [this, exec_append]
+      simp only [execT]
+      cases exec s [st] with
+      | none => rfl
+      | some s' => exact ih s'
+    | imp frag =>
+      have : inlineImports (TStmt.imp frag :: rest) = frag ++ inlineImports rest := rfl
+      rw [this, exec_append]
+      simp only [execT]
+      cases exec s frag with
+      | none => rfl
+      | some s' => exact ih s'
+
+/-- the rewrite itself: cutting the run `frag` out of `pre ++ frag ++ post` into a partial -/
+theorem move_fragment_into_partial (pre frag post : List Stmt) (s : State) :
+    execT s (pre.map .plain ++ [.imp frag] ++ post.map .plain) = exec s (pre ++ frag ++ post) := by
+  rw [import_inlines]
+  congr 1
+  have h : ∀ l : List Stmt, inlineImports (l.map .plain) = l := by
+    intro l; induction l with
+    | nil => rfl
+    | cons x xs ih => simp [inlineImports, ih]
+  have happ : ∀ a b : List TStmt, inlineImports (a ++ b) = inlineImports a ++ inlineImports b := by
+    intro a b; induction a with
+    | nil => rfl
+    | cons t ts ih => cases t <;> simp [inlineImports, ih]
+  simp [happ, h, inlineImports]
 
 end C35
